@@ -350,6 +350,8 @@ type c12Log struct {
 	seen    map[string]string // request key -> digest of what the handler saw (re-packed)
 	hseq    atomic.Int64
 	tsig    map[string]string // request key -> TsigStatus seen by the handler ("ok", "none", or the error)
+	addrs   int               // requests that declared their source address (EDNS0 local option 65002)
+	addrBad []string          // ... and whose handler saw another RemoteAddr
 }
 
 var c12Secrets = map[string]string{"crosstalk-key.": "c2VjcmV0LXNlY3JldC1zZWNyZXQtc2VjcmV0LTAxMjM="}
@@ -383,7 +385,21 @@ func (l *c12Log) handler(hold time.Duration) dns.HandlerFunc {
 			d = hex.EncodeToString(s[:])
 		}
 		k := reqKey(req)
+		declared := ""
+		if o := req.IsEdns0(); o != nil {
+			for _, op := range o.Option {
+				if lo, ok := op.(*dns.EDNS0_LOCAL); ok && lo.Code == 65002 {
+					declared = string(lo.Data)
+				}
+			}
+		}
 		l.mu.Lock()
+		if declared != "" {
+			l.addrs++
+			if ra := rw.RemoteAddr(); ra == nil || ra.String() != declared {
+				l.addrBad = append(l.addrBad, fmt.Sprintf("%s: sent from %s, handler's RemoteAddr %v", k, declared, ra))
+			}
+		}
 		l.handled[k]++
 		l.seen[k] = d
 		if l.tsig != nil {
@@ -899,7 +915,19 @@ func c12CrossTalk(w *core.W, j int) {
 				if !signing { // the default accept policy allows two additional records: payload+OPT or OPT+TSIG
 					m.Extra = append(m.Extra, &dns.TXT{Hdr: dns.RR_Header{Name: "payload.", Rrtype: dns.TypeTXT, Class: 1}, Txt: []string{string(pay)}})
 				}
+				// odd clients dial first and tell the handler which address they talk from: what the handler
+				// is told about its peer (the datagram session / the connection) must be this client
+				var own *dns.Conn
+				if c%2 == 1 {
+					var derr error
+					if own, derr = cli.Dial(addr); derr != nil {
+						continue
+					}
+				}
 				o := &dns.OPT{Hdr: dns.RR_Header{Name: ".", Rrtype: dns.TypeOPT, Class: 4096}}
+				if own != nil {
+					o.Option = append(o.Option, &dns.EDNS0_LOCAL{Code: 65002, Data: []byte(own.LocalAddr().String())})
+				}
 				local := make([]byte, 8+r.IntN(40))
 				for i := range local {
 					local[i] = byte(c)
@@ -909,6 +937,9 @@ func c12CrossTalk(w *core.W, j int) {
 				m.Extra = append(m.Extra, o)
 				b, err := m.Pack()
 				if err != nil {
+					if own != nil {
+						own.Close()
+					}
 					continue
 				}
 				d := sha256.Sum256(b)
@@ -941,6 +972,9 @@ func c12CrossTalk(w *core.W, j int) {
 						}
 					}
 					rep, _, err = cli.ExchangeWithConn(m, conn)
+				} else if own != nil {
+					rep, _, err = cli.ExchangeWithConn(m, own)
+					own.Close()
 				} else {
 					rep, _, err = cli.Exchange(m, addr)
 				}
@@ -1003,6 +1037,10 @@ func c12CrossTalk(w *core.W, j int) {
 	for _, s := range sents {
 		sentBy[s.key] = s
 	}
+	w.Count("declared_source_addresses_checked_"+network, log.addrs)
+	if len(log.addrBad) > 0 {
+		w.Violation("C12/handler-told-wrong-peer/"+network, fmt.Sprintf("%d of %d requests that declared their source address were handled with another RemoteAddr: %s", len(log.addrBad), log.addrs, log.addrBad[0]), nil)
+	}
 	if n := tsigReplyErrs.Load(); n > 0 {
 		w.Violation("C12/signed-reply-rejected/"+network, fmt.Sprintf("%d signed replies failed TSIG verification at their client: %v", n, firstTsigErr.Load()), nil)
 	}
@@ -1041,6 +1079,18 @@ func c12CrossTalk(w *core.W, j int) {
 		if log.seen[k] != s.digest {
 			w.Violation("C12/handler-saw-altered-request/"+network, fmt.Sprintf("request %q: digest of what the handler decoded (%s) differs from what the client sent (%s)", k, log.seen[k][:16], s.digest[:16]), map[string]any{"scribble": true, "clients": nclients})
 		}
+	}
+	// replies that were written but never arrived: a lost datagram is legal, but on the loopback
+	// interface with one outstanding request per client it is not what happens to every fourth one
+	lost := 0
+	for k := range log.handled {
+		if _, ok := accepted[k]; !ok && sentBy[k].key != "" && !staleKeys[k] {
+			lost++
+		}
+	}
+	w.Count("replies_written_but_not_received_"+network, lost)
+	if len(log.handled) >= 100 && lost*4 > len(log.handled) {
+		w.Violation("C12/reply-did-not-reach-its-client/"+network, fmt.Sprintf("%d of %d requests were handled and answered, but their clients never received the reply within 5 s on the loopback interface", lost, len(log.handled)), nil)
 	}
 	for k, d := range accepted {
 		s := sentBy[k]
@@ -1206,6 +1256,6 @@ func init() {
 			"65536+ octet writes; stream/datagram ID handling with 0..5 stale/duplicate/foreign replies in seeded orders; cross-talk: 4..32 concurrent clients x 12 unique requests against real loopback UDP/TCP servers with scribbled recycled buffers and hook delays, offline exactly-once/no-mixing check; a third of the clients sign with TSIG (handler must see TsigStatus nil, signed replies must verify); after every split plan the following message on the stream is read too, incl. segments that carry the end of one frame and the start of the next; race detector on; " +
 			"non-trivial = distinct (size, split plan) / scripted reply order / cross-talk round",
 		Assumptions: []string{"loss of UDP datagrams is legal: an unanswered request stays open, never 'failed'", "a watchdog of 20 s decides 'hang' for in-memory transports"},
-		MinObserved: []string{"split_plans", "fault_offsets", "server_split_plans", "datagram_scripts", "exchanges_udp", "exchanges_tcp", "hook_poolPut", "oversize_response_writes", "following_messages_read", "conn_read_calls", "write_sequences", "multihomed_rounds", "signed_requests_handled_udp", "signed_requests_handled_tcp", "exchanges_tcp-tls"},
+		MinObserved: []string{"split_plans", "fault_offsets", "server_split_plans", "datagram_scripts", "exchanges_udp", "exchanges_tcp", "hook_poolPut", "oversize_response_writes", "following_messages_read", "conn_read_calls", "write_sequences", "multihomed_rounds", "signed_requests_handled_udp", "signed_requests_handled_tcp", "exchanges_tcp-tls", "declared_source_addresses_checked_udp", "declared_source_addresses_checked_tcp"},
 	})
 }
